@@ -441,3 +441,15 @@ Definition armor_lines (k : text) (h : list (text * text)) (p : bytes) : list te
   (begin_pfx ++ k ++ dash5) :: map hdr_line h ++ [] :: wrap (b64_enc p) ++ [61 :: crc_text p; end_pfx ++ k ++ dash5].
 Definition with_eol (eol : text) (ls : list text) : text := concat (map (fun l => (l ++ eol) ++ [10]) ls).
 Definition headers_opt (h : list (text * text)) : option (list (text * text)) := if is_nil h then None else Some h.
+
+Definition is_eol (eol : text) : Prop := eol = [] \/ eol = [13].
+(* a line at which neither alternative of the armor expression can start *)
+Definition nostart (l : text) : bool :=
+  negb (eqb_bytes (strip_cr l) signed_begin) && match begin_magic l with None => true | Some _ => false end.
+(* a character of a line of surrounding text: ASCII, not a line feed *)
+Definition line_char (c : Z) : bool := ascii_char c && negb (c =? 10).
+
+Definition is_clear (k : kind) : bool := match k with KCleartext => true | _ => false end.
+Definition rejected (d : decision) : bool := match d with DValueError | DTypeError => true | _ => false end.
+Definition cls_eqb (a b : cls) : bool :=
+  match a, b with ClsKey, ClsKey | ClsMessage, ClsMessage | ClsSignature, ClsSignature => true | _, _ => false end.
